@@ -2,6 +2,8 @@ import SphericalVerif.Gen.RotMKern
 import SphericalVerif.Lemmas.GenDiff
 import SphericalVerif.Lemmas.GenAlg
 import SphericalVerif.Model.Matrix
+import SphericalVerif.Lemmas.Matrix
+import SphericalVerif.Props.GenMethod
 /-! GenRotM — **`_rotate` (the matrix route, the DEFAULT strategy of `Wigner.rotate` / `Modes.rotate`) as the Python text states it** is the
     model's `rotateMatrixEntry`.
 
@@ -115,5 +117,56 @@ theorem gen_evaluate_matrix_is_model {μ : Type} [Mem μ α] (stm : μ) (f za : 
       = evaluateMatrix (α := α) stm f za zgpow sw cmin cmax modesL := by
   rw [gen_evaluate_matrix_cell]
   rfl
+end
+
+/-! ### what `_rotate` computes, in exact arithmetic, for ANY arrays: the row of weights times the ℓ-block of the flat 𝔇 array -/
+section
+open MatrixLemmas Horner
+variable {φ : Type} [FMem φ ℝ] [LawfulFMem φ ℝ]
+
+/-- **`_rotate` from the Python text, exact reals**: output weight (ℓ, m) of the row is `Σ_n flm[ℓ(ℓ+1)+n] · 𝔇[WignerDindex(ℓ, n, m, ell_min_w)]` — the block
+    of the flat array is read at exactly the positions the calculator's own index function gives to `(ℓ, n, m)`, whatever the arrays hold.
+    (With the arrays of `Wigner.D` this is the documented `f · 𝔇`; `Props/Matrix`, `GenChain`.) -/
+theorem gen_rotate_matrix_sum (flm D : Int → Cx ℝ) (A : Nat) (cmin cmax cmp : Int) (L : Nat) (sw : Int) (st : φ)
+    (ell : Nat) (m : Int) (hm : m.natAbs ≤ ell) (hl : ell ≤ L) (hs : sw.natAbs ≤ ell) :
+    toC (frdC (α := ℝ) (Gen.u_rotate (α := ℝ) flm A cmin cmax cmp 0 (L : Int) sw D 1 0 0 st) A ((ell : Int) * ((ell : Int) + 1) + m))
+      = ∑ n ∈ Finset.Icc (-(ell : ℤ)) ell, toC (flm ((ell : Int) * ((ell : Int) + 1) + n)) * toC (D (WignerDindex (ell : Int) n m cmin (-1))) := by
+  rw [gen_rotate_matrix_cell flm D A cmin cmax cmp L sw st ell m hm hl hs]
+  unfold colSum
+  have hlen : ((((Yindex (ell : Int) (ell : Int) 0) + (1 : Int)) - (Yindex (ell : Int) (-(ell : Int)) 0)) - (0 : Int)).toNat = 2 * ell + 1 := by
+    rw [GenAlg.yidx0 _ _ (by omega), GenAlg.yidx0 _ _ (by omega)]; omega
+  have hz : (Cx.mk (Scalar.ofInt (0 : Int) : ℝ) (Scalar.ofInt (0 : Int) : ℝ) : Cx ℝ) = ⟨zero, zero⟩ := rfl
+  rw [hlen, hz, toC_dotLoop (fun k => flm (((0 : Int) + (0 : Int)) * (0 : Int) + ((Yindex (ell : Int) (-(ell : Int)) 0) + ((0 : Int) + (k : Int)))))
+    (fun k => D (((WignerDindex (ell : Int) (-(ell : Int)) (-(ell : Int)) cmin (-1 : Int)) + (((0 : Int) + (k : Int)) * (((2 : Int) * (ell : Int)) + (1 : Int)))) + ((0 : Int) + (m + (ell : Int))))),
+    sum_Icc_int_eq_range]
+  apply Finset.sum_congr rfl
+  intro j hj
+  have hidx : ((0 : Int) + (0 : Int)) * (0 : Int) + ((Yindex (ell : Int) (-(ell : Int)) 0) + ((0 : Int) + (j : Int))) = (ell : Int) * ((ell : Int) + 1) + ((j : Int) - ell) := by
+    rw [GenAlg.yidx0 _ _ (by omega)]; ring
+  have hD : ((WignerDindex (ell : Int) (-(ell : Int)) (-(ell : Int)) cmin (-1 : Int)) + (((0 : Int) + (j : Int)) * (((2 : Int) * (ell : Int)) + (1 : Int)))) + ((0 : Int) + (m + (ell : Int)))
+      = WignerDindex (ell : Int) ((j : Int) - ell) m cmin (-1) := by
+    rw [dindex_default_affine (ell : Int) ((j : Int) - ell) m cmin]; ring
+  rw [hidx, hD]
+
+/-- **The default route of `Wigner.rotate`, method body and kernels from the source, realises the documented rotation law**: the generated body
+    of `Wigner.D` fills the flat array, the generated `_rotate` contracts the row of weights with it, and output weight (ℓ, m) is
+    `Σ_n f_{ℓn} 𝔇^ℓ_{nm}(R)` with the documented 𝔇 — exact reals, every unit quaternion, every calculator `ell_min ≤ ℓ ≤ ell_max`, every
+    spin weight `|s| ≤ ℓ`, every content of the memory before the call. -/
+theorem rotate_matrix_route_doc (L : Nat) (cmin : Int) (zI aI gI DI A : Nat) (a b d g h : Int → ℝ) (ht : GenH.TabOK L a b d g h) (imsqrt : Cx ℝ → ℝ)
+    (hsq : ∀ w : Cx ℝ, w.re ^ 2 + w.im ^ 2 = 1 → 2 * (imsqrt w) ^ 2 = 1 - w.re)
+    (R : Int → ℝ) (hR : R 0 ^ 2 + R 1 ^ 2 + R 2 ^ 2 + R 3 ^ 2 = 1) (F : φ) (h0 : 0 ≤ cmin)
+    (hz : 2 < zI) (ha : 2 < aI) (hg : 2 < gI) (hza : zI ≠ aI) (hzg : zI ≠ gI) (hag : aI ≠ gI)
+    (flm : Int → Cx ℝ) (eM : Nat) (sw : Int) (ell : Nat) (m : Int) (hm : m.natAbs ≤ ell) (hl : ell ≤ eM) (hL : eM ≤ L) (hs : sw.natAbs ≤ ell) (h1 : cmin ≤ ell) :
+    toC (frdC (α := ℝ) (Gen.u_rotate (α := ℝ) flm A cmin (L : Int) (L : Int) 0 (eM : Int) sw
+        (fun i => frdC (α := ℝ) (Gen.Wigner_D_rotor (α := ℝ) R zI g h (L : Int) (L : Int) a b d GenH.idW GenH.idV GenH.idX DI aI imsqrt gI cmin F) DI i) 1 0 0
+        (Gen.Wigner_D_rotor (α := ℝ) R zI g h (L : Int) (L : Int) a b d GenH.idW GenH.idV GenH.idX DI aI imsqrt gI cmin F)) A ((ell : Int) * ((ell : Int) + 1) + m))
+      = ∑ n ∈ Finset.Icc (-(ell : ℤ)) ell, toC (flm ((ell : Int) * ((ell : Int) + 1) + n)) * DDef.docD ell (DDef.Ra (R 0) (R 3)) (DDef.Rb (R 1) (R 2)) n m := by
+  rw [gen_rotate_matrix_sum flm _ A cmin (L : Int) (L : Int) eM sw _ ell m hm hl hs]
+  apply Finset.sum_congr rfl
+  intro n hn
+  rw [Finset.mem_Icc] at hn
+  have := GenMethod.D_rotor_doc L cmin zI aI gI DI a b d g h ht imsqrt hsq R hR F h0 hz ha hg hza hzg hag ell n m h1 (by omega) (by omega) hm
+  rw [show CPow.toC = toC from rfl] at this
+  rw [this]
 end
 end GenRotM
